@@ -213,7 +213,12 @@ def _work(args):
         signal.alarm(budget)
     try:
         spec = mod.gen(seed, extra)
-        case = Case(seed, spec).compile(**(mod.compile_kw() if hasattr(mod, "compile_kw") else {}))
+        kw = {}
+        if hasattr(mod, "compile_kw"):
+            import inspect
+
+            kw = mod.compile_kw(seed) if inspect.signature(mod.compile_kw).parameters else mod.compile_kw()
+        case = Case(seed, spec).compile(**kw)
         res.stats["evaluations"] += 1
         res.stats["impl_status_" + case.status] += 1
         if resp_line is not None and case.status != "schema":
